@@ -1,8 +1,183 @@
 import ApolloModel.Model.Proto
-open Apollo Apollo.Proto
+import ApolloModel.Model.Standalone
+open Apollo Apollo.Proto Apollo.Standalone
 namespace Driver
 
+/-! token-stream decoder for the prefix code written by harness/src/p20.rs -/
+
+abbrev Toks := List String
+
+def pNat : Toks → Option (Nat × Toks)
+  | t :: ts => t.toNat?.map (·, ts)
+  | [] => none
+
+def pOptNat : Toks → Option (Option Nat × Toks)
+  | "-" :: ts => some (none, ts)
+  | t :: ts => t.toNat?.map (fun n => (some n, ts))
+  | [] => none
+
+partial def pMany {α : Type} (p : Toks → Option (α × Toks)) : Nat → Toks → Option (List α × Toks)
+  | 0, ts => some ([], ts)
+  | n + 1, ts => do
+    let (a, ts) ← p ts
+    let (as, ts) ← pMany p n ts
+    pure (a :: as, ts)
+
+def pCounted {α : Type} (p : Toks → Option (α × Toks)) (ts : Toks) : Option (List α × Toks) := do
+  let (n, ts) ← pNat ts
+  pMany p n ts
+
+def pValue : Toks → Option (Value × Toks)
+  | [] => none
+  | t :: ts =>
+    match t.toList with
+    | 'v' :: r => (String.ofList r).toNat?.map (fun n => (.var n, ts))
+    | ['b', 't'] => some (.bool true, ts)
+    | ['b', 'f'] => some (.bool false, ts)
+    | 's' :: r => (String.ofList r).toNat?.map (fun n => (.str n, ts))
+    | ['n'] => some (.null, ts)
+    | 'o' :: r => do
+      let k ← (String.ofList r).toNat?
+      let (vs, ts) ← pMany pNat k ts
+      pure (.other vs, ts)
+    | _ => none
+
+def pArg (ts : Toks) : Option (Arg × Toks) := do
+  let (n, ts) ← pNat ts
+  let (v, ts) ← pValue ts
+  pure ({ name := n, value := v }, ts)
+
+def pDir (ts : Toks) : Option (Dir × Toks) := do
+  let (n, ts) ← pNat ts
+  let (as, ts) ← pCounted pArg ts
+  pure ({ name := n, args := as }, ts)
+
+partial def pSels : Toks → Option (Sels × Toks)
+  | "." :: ts => some (.nil, ts)
+  | "F" :: ts => do
+    let (n, ts) ← pNat ts
+    let (ds, ts) ← pCounted pDir ts
+    let (as, ts) ← pCounted pArg ts
+    let (sub, ts) ← pSels ts
+    let (rest, ts) ← pSels ts
+    pure (.field n ds as sub rest, ts)
+  | "S" :: ts => do
+    let (n, ts) ← pNat ts
+    let (ds, ts) ← pCounted pDir ts
+    let (rest, ts) ← pSels ts
+    pure (.spread n ds rest, ts)
+  | "I" :: ts => do
+    let (tc, ts) ← pOptNat ts
+    let (ds, ts) ← pCounted pDir ts
+    let (sub, ts) ← pSels ts
+    let (rest, ts) ← pSels ts
+    pure (.inline tc ds sub rest, ts)
+  | _ => none
+
+def pVarDef (ts : Toks) : Option (VarDef × Toks) := do
+  let (n, ts) ← pNat ts
+  let (t, ts) ← pNat ts
+  let (ds, ts) ← pCounted pDir ts
+  pure ({ name := n, ty := t, dirs := ds }, ts)
+
+partial def pDefs : Toks → Option (List Def)
+  | [] => some []
+  | "T" :: ts => (pDefs ts).map (Def.typeSystem :: ·)
+  | "O" :: k :: ts => do
+    let ty ← (match k with | "q" => some OpType.query | "m" => some .mutation | "s" => some .subscription | _ => none)
+    let (name, ts) ← pOptNat ts
+    let (vars, ts) ← pCounted pVarDef ts
+    let (ds, ts) ← pCounted pDir ts
+    let (sels, ts) ← pSels ts
+    let rest ← pDefs ts
+    pure (.op { ty := ty, name := name, vars := vars, dirs := ds, sels := sels } :: rest)
+  | "G" :: ts => do
+    let (n, ts) ← pNat ts
+    let (tc, ts) ← pNat ts
+    let (ds, ts) ← pCounted pDir ts
+    let (sels, ts) ← pSels ts
+    let rest ← pDefs ts
+    pure (.frag { name := n, tc := tc, dirs := ds, sels := sels } :: rest)
+  | _ => none
+
+def toks (f : String) : Toks := ((String.ofList (decodeField f)).splitOn " ").filter (· ≠ "")
+
+/-! schema view -/
+
+def pLoc : Toks → Option (Loc × Toks)
+  | [] => none
+  | t :: ts =>
+    match t.toList with
+    | ['q'] => some (.query, ts)
+    | ['m'] => some (.mutation, ts)
+    | ['s'] => some (.subscription, ts)
+    | ['f'] => some (.field, ts)
+    | ['g'] => some (.fragmentDefinition, ts)
+    | ['p'] => some (.fragmentSpread, ts)
+    | ['i'] => some (.inlineFragment, ts)
+    | ['v'] => some (.variableDefinition, ts)
+    | 't' :: r => (String.ofList r).toNat?.map (fun n => (.typeSystem n, ts))
+    | _ => none
+
+def pArgDef (ts : Toks) : Option (ArgDef × Toks) := do
+  let (n, ts) ← pNat ts
+  let (r, ts) ← pNat ts
+  pure ({ name := n, required := r == 1 }, ts)
+
+structure SchemaTables where
+  roots : List (Option Nat) := []
+  kinds : List (Nat × Kind) := []
+  fields : List ((Nat × Nat) × FieldDef) := []
+  dirs : List (Nat × DirDef) := []
+
+partial def pSchema (acc : SchemaTables) : Toks → Option SchemaTables
+  | [] => some acc
+  | "R" :: ts => do
+    let (q, ts) ← pOptNat ts
+    let (m, ts) ← pOptNat ts
+    let (s, ts) ← pOptNat ts
+    pSchema { acc with roots := [q, m, s] } ts
+  | "K" :: n :: k :: ts => do
+    let n ← n.toNat?
+    let k ← (match k with | "c" => some Kind.composite | "l" => some .leaf | "i" => some .input | _ => none)
+    pSchema { acc with kinds := acc.kinds ++ [(n, k)] } ts
+  | "Y" :: ts => do
+    let (p, ts) ← pNat ts
+    let (f, ts) ← pNat ts
+    let (t, ts) ← pNat ts
+    let (as, ts) ← pCounted pArgDef ts
+    pSchema { acc with fields := acc.fields ++ [((p, f), { ty := t, args := as })] } ts
+  | "D" :: ts => do
+    let (n, ts) ← pNat ts
+    let (r, ts) ← pNat ts
+    let (ls, ts) ← pCounted pLoc ts
+    let (as, ts) ← pCounted pArgDef ts
+    pSchema { acc with dirs := acc.dirs ++ [(n, { repeatable := r == 1, locs := ls, args := as })] } ts
+  | _ => none
+
+def SchemaTables.toSchema (t : SchemaTables) : Schema :=
+  { root := fun o =>
+      match o, t.roots with
+      | .query, [q, _, _] => q
+      | .mutation, [_, m, _] => m
+      | .subscription, [_, _, s] => s
+      | _, _ => none
+    kind := fun n => (t.kinds.find? (fun p => p.1 == n)).map (·.2)
+    field := fun p f => (t.fields.find? (fun e => e.1.1 == p && e.1.2 == f)).map (·.2)
+    dirDef := fun n => (t.dirs.find? (fun p => p.1 == n)).map (·.2)
+    extra := fun _ => [] }
+
 /-- streams of property C20 are named `c20.<name>` -/
-def c20 (_stream : String) (_fs : List String) : String := "unknown-stream"
+def c20 (stream : String) (fs : List String) : String :=
+  match stream, fs with
+  | "c20.standalone", [doc] =>
+    match pDefs (toks doc) with
+    | some ast => verdict (validate (currentParams (fun _ => [])) none ast)
+    | none => "bad-case"
+  | "c20.schema", [schema, doc] =>
+    match pSchema {} (toks schema), pDefs (toks doc) with
+    | some t, some ast => verdict (validate (currentParams (fun _ => [])) (some t.toSchema) ast)
+    | _, _ => "bad-case"
+  | _, _ => "unknown-stream"
 
 end Driver
